@@ -188,7 +188,8 @@ class Ctx:
 
 def make_rng(seed: int, stream: str = "") -> numpy.random.Generator:
     """All randomness derives from (seed, stream-name)."""
-    h = int.from_bytes(stream.encode(), "little") % (2**63) if stream else 0
+    import hashlib
+    h = int.from_bytes(hashlib.sha256(stream.encode()).digest()[:8], "little") % (2**63) if stream else 0
     return numpy.random.Generator(numpy.random.PCG64([seed, h]))
 
 
